@@ -186,7 +186,9 @@ class LayerRule(
                 "Please start with 'layers_that' to ensure the rule is properly set up."
             )
 
-        if not self._rule.rule_subjects and isinstance(layers, list):
+        if self._rule._modules_to_check_to_be_specified_next and (
+            self._rule.rule_subjects or isinstance(layers, list)
+        ):
             raise ImproperlyConfigured(
                 "Layer rule subjects cannot be specified in batch."
             )
